@@ -478,6 +478,64 @@ theorem exPPB_wf : C06.WF exPPB 1 where
     | ⟨0, _⟩ => exact exPP1_valid
   shape := by decide
 
+/-! ### Periodic with FEWER than `p + k` functions: a `C^1`-periodic quadratic curve with `n = 3 < 3 + 1` -/
+
+def exPP2 : Basis ℚ := ⟨3, #[-2, -1, 0, 1, 2, 3, 4, 5], 1⟩
+def exPPC : Obj ℚ := { bases := #[exPP2], cps := ⟨[3, 2], #[1, 0, 0, 2, -1, 1]⟩, rational := false }
+def exSeg3 : Obj ℚ :=
+  { bases := #[⟨3, #[0, 0, 0, 1, 1, 1], -1⟩], cps := ⟨[3, 2], #[3, 1, 0, 5, 2, 2]⟩, rational := false }
+
+theorem exPP2_valid : exPP2.Valid where
+  order_pos := by decide
+  size_ge := by decide
+  sorted := by
+    intro i hi
+    have hi' : i + 1 < 8 := hi
+    have hi'' : i < 7 := by omega
+    interval_cases i <;> norm_num [Basis.kn, exPP2]
+  periodic_ge := by decide
+  periodic_le := by decide
+  start_lt_stop := by norm_num [Basis.start, Basis.stop, Basis.kn, exPP2]
+  ghosts := by
+    intro _ i hi
+    have hi' : i + 3 < 8 := hi
+    have hi'' : i < 5 := by omega
+    interval_cases i <;> decide +kernel
+
+theorem exPPC_wf : C06.WF exPPC 1 where
+  size := rfl
+  valid := by
+    intro d
+    match d with
+    | ⟨0, _⟩ => exact exPP2_valid
+  shape := by decide
+
+theorem exSeg3_wf : C06.WF exSeg3 1 where
+  size := rfl
+  valid := by
+    intro d
+    match d with
+    | ⟨0, _⟩ => exact exSv1_valid
+  shape := by decide
+
+/-- The example has fewer functions than `p + k`; the normalised open partner and what `lower_periodic(-1)`
+    (cover branch of the periodic insertion) makes of the periodic basis; the whole model run on the two
+    pairs, evaluated by the kernel. -/
+theorem exPPC_norm :
+    (exPPC.basis 0).numFunctions < (exPPC.basis 0).order + 1
+    ∧ (exPPC.basis 0).periodic = ((1 : ℕ) : Int)
+    ∧ C06.reparamOk (exSeg3.basis 0) 0 1 = openBasis 3 (clampedU 0 1 [1/3, 2/3]) (clampedM 3 [0, 0])
+    ∧ (match (C06.reparamObj exPPC 0 0 1).lowerPeriodic (-1) 0 with
+        | .ok o2 => decide (o2.basis 0 = openBasis 3 (clampedU 0 1 [1/3, 2/3]) (clampedM 3 [1, 1]))
+        | .error _ => false) = true
+    ∧ (match Obj.identicalDir exTol true true (exSeg3, exPPC) 0 with
+        | .ok r => decide ((r.1.basis 0).knots = #[0, 0, 0, 1/3, 2/3, 1, 1, 1] ∧ r.2.basis 0 = r.1.basis 0)
+        | .error _ => false) = true
+    ∧ (match Obj.identicalDir exTol true true (exPPA, exPPC) 0 with
+        | .ok r => decide ((r.1.basis 0).knots = #[-1/3, 0, 0, 1/3, 2/3, 1, 1, 4/3] ∧ r.2.basis 0 = r.1.basis 0)
+        | .error _ => false) = true := by
+  refine ⟨?_, ?_, ?_, ?_, ?_, ?_⟩ <;> decide +kernel
+
 end C12
 
 end Splipy
